@@ -67,6 +67,7 @@ class Emitter:
         self.unit = None
         self.refvars = [set()]
         self.renames = self.cfg.get("rename", {})
+        self.const_types = {}  # const_globals name -> C type
         self.lib = libmap
         self.dropped = []
         self.callees = {}  # cname -> description
@@ -316,6 +317,10 @@ class Emitter:
         if name in self.cfg.get("const_globals", {}):
             # compile-time constant of the real code: evaluated by the real compiler (cxx2c.eval_constants)
             self.const_needed.add(name)
+            try:  # keep the constant's own type (an `unsigned` flag must not become a signed int literal)
+                self.const_types[name] = self.ctype((rd.get("type") or {}).get("desugaredQualType") or rd["type"]["qualType"])
+            except Unsupported:
+                pass
             return "VFC_" + ident(name)
         gmap = self.cfg.get("globals", {})
         cn = gmap.get(name, ident(name))
@@ -679,7 +684,16 @@ class Emitter:
             if name in DROP_CALLS:
                 self.dropped.append(name)
                 return "((void)0)"
-            cname = self.fn_cname(None, name, fnt)
+            # plain call of a CXXMethodDecl = static member function. clang's JSON gives no qualifier for the callee, so the
+            # class is only known when the callee is itself a configured unit `...::Class::name`: then it is named like
+            # that unit (Class__name); any other static callee keeps its bare name, as before.
+            stat_cls = None
+            if rd.get("kind") == "CXXMethodDecl":
+                for u in self.cfg.get("units", []):
+                    parts = u["name"].split("::")
+                    if len(parts) >= 2 and parts[-1] == name:
+                        stat_cls = self.tm.struct_tag(parts[-2])
+            cname = self.fn_cname(stat_cls, name, fnt)
             params = self.fn_params_from(fnt)
             a = self.call_args(args, params)
             ret, isref = self.ret_ctype_from(fnt)
@@ -755,7 +769,7 @@ class Emitter:
         ret = self.ctype(n)
         if isref:
             ret += "*"
-        cname = self.fn_cname(tag, name, None)
+        cname = self.fn_cname(tag, name, ",".join(pcs))  # overloads: rename key "Class__m|<inferred C param types>"
         pc = (["struct %s*" % tag] if obj is not None else []) + pcs
         self.note_proto(cname, ret, pc, "%s::%s (signature inferred at call site)" % (tag, name))
         self.callees.setdefault(cname, "%s::%s" % (tag, name))
